@@ -252,7 +252,7 @@ def generate(src, targets, ops, limit_per_op=40):
             k += 1
 
 
-def rename_variants(src, targets, limit=6):
+def rename_variants(src, targets, limit=40):
     tree0 = ast.parse(src)
     n = 0
     for node in ast.walk(tree0):
@@ -272,7 +272,7 @@ def rename_variants(src, targets, limit=6):
                 if isinstance(x, ast.Constant) and isinstance(x.value, str):
                     intext.update(_re.findall(r'[A-Za-z_]\w*', x.value))
             locs = [l for l in locs if l not in intext]
-            for old in locs[:2]:
+            for old in locs[:8]:
                 if n >= limit:
                     return
                 tree = copy.deepcopy(tree0)
